@@ -406,3 +406,38 @@ func (m mtMod) NonTrivial(x *X) bool {
 	s := m.scratch(x)
 	return len(s.holders) >= 2 && s.emptied
 }
+
+// Tamper: damage the exported genesis (see main.go: Tamperer)
+func (m mtMod) Tamper(x *X, c *Chain, raw json.RawMessage, k int) (json.RawMessage, string, bool) {
+	var gs mttypes.GenesisState
+	c.App.AppCodec().MustUnmarshalJSON(raw, &gs)
+	var denom, mt string
+	for _, col := range gs.Collections {
+		if len(col.Mts) > 0 {
+			denom, mt = col.Denom.Id, col.Mts[0].Id
+		}
+	}
+	what := ""
+	switch k % 3 {
+	case 0:
+		if denom == "" {
+			return nil, "", false
+		}
+		// two further balances of 2^63: the validation's uint64 sum wraps back to the exported supply
+		what = "balances-wrap-uint64"
+		for i := 0; i < 2; i++ {
+			gs.Owners = append(gs.Owners, mttypes.Owner{Address: c.Actors[i].String(),
+				Denoms: []mttypes.DenomBalance{{DenomId: denom, Balances: []mttypes.Balance{{MtId: mt, Amount: 1 << 63}}}}})
+		}
+	case 1:
+		if len(gs.Owners) == 0 {
+			return nil, "", false
+		}
+		what = "balance-of-unknown-class"
+		gs.Owners = append(gs.Owners, mttypes.Owner{Address: c.Actors[0].String(),
+			Denoms: []mttypes.DenomBalance{{DenomId: fmt.Sprintf("%x", sha256.Sum256([]byte("mt-denom-80"))), Balances: []mttypes.Balance{{MtId: fmt.Sprintf("%x", sha256.Sum256([]byte("mt-80"))), Amount: 1}}}}})
+	case 2:
+		what = "untouched"
+	}
+	return c.App.AppCodec().MustMarshalJSON(&gs), what, true
+}
